@@ -48,7 +48,7 @@ TEXT.update({
  'C13': {'text': 'Lock discipline, decided per forwarding member: the recording leaf asserts that the harness mutex is held on every entry (allocation, release, '
                  'composable variants, max_* queries, lock() proxy) and the harness asserts it is released afterwards, also when the call threw; allocators '
                  'without a mutex type take no lock. Mutual exclusion for any number of threads then follows from the lock argument (an argument, not a query). '
-                 'Instruction-level interleavings are not explored.', 'note': NOTE + ' std::mutex itself is trusted; interleavings are not enumerated.'},
+                 'A syntactic audit of the freshly linked IR additionally requires every access to the process-wide leak counters, handler pointers and the temporary stack list head to be an atomic instruction (not a solver query). Instruction-level interleavings are not explored.', 'note': NOTE + ' std::mutex itself is trusted; interleavings are not enumerated.'},
  'C15': {'text': 'memory_stack: the leak counter is part of the symbolic pre-state; traits-level allocate/deallocate move it by exactly count*size; the destructor '
                  'calls the installed leak handler exactly once with the exact net amount iff it is non-zero; a moved-from object reports nothing and the count '
                  'moves with the object.', 'note': NOTE},
